@@ -7,7 +7,8 @@ from rules.psc import sym, strip
 
 META = {
     'title': 'Tokenisation and literals are faithful to the text',
-    'explanation': 'Clauses read off the MIR of the lexer by constant propagation with the first two input characters held constant (a finite decision table: which token, how many characters consumed) and off the scan predicates as truth tables, plus structural rules on the string decoder: two-character operators give their own token and consume exactly two characters, no other second character changes or joins a one-character token, the keyword table is the documented one and is applied to the whole identifier slice, identifier/number/string/comment scan predicates, the skipped set is exactly Pattern_White_Space, token text is sliced only at offsets produced by bump(), the escape flag of the string scanner has parity (4-cell truth table of one loop iteration), the decoder is a single left-to-right pass over the same escape set with the documented values, and the end-of-input sentinel is not a token the lexer can produce.',
+    'explanation': 'Clauses read off the MIR of the lexer by constant propagation with the first two input characters held constant (a finite decision table: which token, how many characters consumed) and off the scan predicates as truth tables, plus structural rules on the string decoder: two-character operators give their own token and consume exactly two characters, no other second character changes or joins a one-character token, the keyword table is the documented one and is applied to the whole identifier slice, identifier/number/string/comment scan predicates, the skipped set is exactly Pattern_White_Space, token text is sliced only at offsets produced by bump(), the escape flag of the string scanner has parity (4-cell truth table of one loop iteration), the decoder is a single left-to-right pass over the same escape set with the documented values, and the end-of-input sentinel is not a token the lexer can produce.'
+                   ' R08.9 the token stream ends only where the text ends (an unterminated literal is not the end of the program).',
     'not_decided': ['token-stream equality for all inputs as an input-output relation', "Unicode classification (char::is_alphabetic) is std's"],
 }
 
@@ -78,6 +79,11 @@ def slice_boundaries_ok(ctx):
                         form_ok = False
             if not form_ok:
                 bad.append('%s arg %s' % (f.path, s_[:60]))
+    # `offset() - 1` steps back over the closing quote: that quote must have been consumed.  On the text `"` (a string that is
+    # opened as the last character) no path may get as far as cutting the token text out: the bounds would cross (start + 1 > offset() - 1)
+    _, ps_, model_, trunc_ = tables.lex_run(F, ['"', None])
+    if trunc_ or any(T + 'read_str' in [c[1] for c in p_.calls] for p_ in ps_):
+        bad.append('on a string literal that is still open at the end of the text read_str(start + 1, offset() - 1) is reached with crossed bounds')
     ok = ok_w and okb and not bad
     why = 'Tokenizer.pos is written only by new/bump (+= len_utf8 of the consumed char); read_str is called with offset() values (±1 around the one-byte quote)'
     if not ok:
@@ -140,6 +146,36 @@ def render_tree(e):
     return render(e)
 
 
+def check_stream_end(ctx, rep, rule, lf):
+    """`No part of the input is silently dropped`: the parser takes the first None of the tokenizer for the end of the program.
+    With the first characters of the input held constant (tables.lexer_outcomes: every printable ASCII character, the whitespace
+    forms and some non-ASCII ones, alone and followed by a second character), next() may answer None only if all it consumed
+    was whitespace, or a comment up to the end of the text; a None from inside a token (a string that is not closed) makes the
+    rest of the text disappear without an error."""
+    O = tables.lexer_outcomes(ctx)
+    skipped = {chr(c) for c in lf['skipped']}
+    by_start = {}
+    n = 0
+    for (c1, c2), res in sorted(O.items(), key=lambda kv: (kv[0][0], kv[0][1] or '')):
+        if not any(r[0] == '<eof>' for r in res):
+            continue
+        n += 1
+        rest = [c for c in (c1, c2) if c is not None]
+        while rest and rest[0] in skipped:
+            rest.pop(0)
+        if not rest or (rest == ['/', '/'] and lf['comment']['skip']):
+            continue
+        by_start.setdefault(rest[0], []).append(''.join(c for c in (c1, c2) if c is not None))
+    rep.count('stream_end_inputs', n)
+    starts = sorted({k[0] for k in O if k[0] not in skipped})
+    for c in starts:
+        bad = by_start.get(c)
+        rep.ob(not bad, rule, 'lexer::Tokenizer::next', 'end of stream after %r' % c,
+               ('a text that starts with %r always yields a token first' % c) if not bad else
+               'on the text %r (and %d more) next() answers None, which the parser takes for the end of the program: the unfinished token and everything after it '
+               'are dropped without an error' % (bad[0], len(bad) - 1), 'src/lexer.rs')
+
+
 def run(ctx, rep):
     F = ctx.facts()
     S = ctx.syn()
@@ -178,8 +214,8 @@ def run(ctx, rep):
         if c2 is None or c1 + c2 in TWO_CHAR or c1 + c2 == '//':
             continue
         alone = O[(c1, None)]
-        if len(alone) != 1 or alone[0][0] not in unit:
-            continue        # identifiers, numbers, strings read on by themselves
+        if len(alone) != 1 or alone[0][0] not in unit or 'skip_while' in alone[0][2] or alone[0][1] != 1:
+            continue        # identifiers, numbers, strings read on by themselves (also when the text ends inside one)
         okp = len(r) == 1 and r[0][0] == alone[0][0] and r[0][1] == 1
         if not okp:
             rep.bad('R08.1', fnp, 'lexeme %s before %r' % (c1, c2), 'a one-character token must not depend on or consume the character after it: alone %s, followed by %r: %s' % (alone, c2, r), loc)
@@ -337,6 +373,10 @@ def run(ctx, rep):
     ok, why = float_token_shape_ok(ctx)
     rep.ob(ok, 'R08.6', fnp, 'numeric token shape', why, loc)
 
+    # ---- R08.9 the stream ends only where the text ends ------------------------------------------
+    rep.rule('R08.9', 'the token stream ends only at the end of the text: next() answers None only when everything it consumed was whitespace or a comment')
+    check_stream_end(ctx, rep, 'R08.9', lf)
+
     # ---- R08.7 skipping ------------------------------------------------------------------------
     rep.ob(set(PATTERN_WHITE_SPACE) <= set(lf['skipped']), 'R08.7', fnp, 'whitespace arm', 'whitespace restarts the scan without a token', loc)
     cmt = lf['comment']
@@ -463,6 +503,50 @@ def skip_while_delta(ctx):
             v = next(iter(vals)) if len(vals) == 1 else None
             table[(bool(esc), ch)] = bool(v[1]) if v and v[0] == 'int' else None
     return table, ''
+
+
+def skip_while_step(ctx):
+    """{(eof, escaped, predicate answer): (what one turn of skip_while's loop does, characters consumed, predicate asked)} by
+    constant propagation; the scan rules (comment, string, number, identifier) read the closures handed to skip_while on the
+    assumption that it consumes a character exactly when the predicate accepts it"""
+    F = ctx.facts()
+    T = tables.TOK
+    fn = F.fn(T + 'skip_while')
+    loops = fn.natural_loops()
+    if len(loops) != 1:
+        return None
+    header, body = loops[0]
+    table, _ = skip_while_delta(ctx)
+    flag = None
+    for b, t_ in fn.calls(body):
+        n = callee_name(t_)
+        if n.endswith(('FnMut<Args>>::call_mut', 'FnMut::call_mut', 'FnOnce::call_once', 'Fn::call')) and len(t_['args']) == 2:
+            tv = sym(fn, t_['args'][1])
+            if tv[0] == 'tuple' and len(tv[1]) == 2 and strip(tv[1][1])[0] == 'mlocal':
+                flag = strip(tv[1][1])[1]
+    if flag is None:
+        return None
+    out = {}
+    for eof in (0, 1):
+        for esc in (0, 1):
+            for pr in (0, 1):
+                def decide(name, argvals, t_, eof=eof, pr=pr):
+                    if name in (T + 'peek', T + 'bump'):
+                        return ('agg', 'core::option::Option', 'None', ()) if eof else ('agg', 'core::option::Option', 'Some', (('int', ord('x'), 'char'),))
+                    if name == T + 'is_eof':
+                        return ('int', eof, 'bool')
+                    if name.endswith(('call_mut', 'call_once', '::call')):
+                        return ('int', pr, 'bool')
+                    return tables.char_pred(name, argvals, t_)
+                ai = AbsInt(F, fn, {'_%d' % flag: ('int', esc, 'bool')}, stop_blocks={header}, decide_call=decide, max_paths=16)
+                ps = ai.run(header)
+                res = set()
+                for p in ps:
+                    names = [c[1] for c in p.calls]
+                    asked = any(n.endswith(('call_mut', 'call_once', '::call')) for n in names)
+                    res.add(('again' if p.exit == 'stop' else p.exit, names.count(T + 'bump'), asked))
+                out[(eof, esc, pr)] = sorted(res) if not ai.truncated else None
+    return out
 
 
 def _skips_first(F, ps, model):
@@ -671,6 +755,26 @@ def check_layout(ctx, rep, rule):
            'of %d code points examined the lexer skips exactly the 11 Pattern_White_Space ones: skipped %s%s' % (
                lf['n'], [hex(c) for c in lf['skipped']][:14], (', undecided %s' % [hex(c) for c in lf['undecided']][:5]) if lf['undecided'] else ''), loc)
     rep.ob(set(PATTERN_WHITE_SPACE) <= set(lf['skipped']), rule, 'lexer::Tokenizer::next', 'whitespace arm', 'whitespace restarts the scan without producing a token', loc)
+    st = skip_while_step(ctx)
+    want = {}
+    for esc in (0, 1):
+        want[(1, esc, 0)] = want[(1, esc, 1)] = 'ends'
+        want[(0, esc, 1)] = 'takes one'
+        want[(0, esc, 0)] = 'ends'
+    bad = []
+    for k, w in sorted(want.items()):
+        got = (st or {}).get(k)
+        if not got or len(got) != 1:
+            bad.append('%s: %s' % (k, got))
+            continue
+        kind, nb, asked = got[0]
+        if w == 'takes one':
+            ok_ = kind == 'again' and nb == 1 and asked
+        else:
+            ok_ = kind == 'return' and nb == 0 and (asked or k[0] == 1)
+        if not ok_:
+            bad.append('at end=%d flag=%d predicate=%d: %s, %d consumed, predicate %s' % (k[0], k[1], k[2], kind, nb, 'asked' if asked else 'not asked'))
+    rep.ob(not bad, rule, 'lexer::Tokenizer::skip_while', 'scan step', 'a scan consumes a character exactly when there is one and the predicate accepts it (flag value irrelevant): %s' % (bad[:3] or 'all 8 cases'), loc)
     c = lf['comment']
     rep.ob(c['skip'] and c['slash'] and c['pred'] is True, rule, 'lexer::Tokenizer::next', 'comment arm',
            '`//` skips exactly to the next line feed (predicate true for every character but the line feed, with or without the escape flag: %s) and restarts; a single `/` is Slash (%s)' % (c['pred'], c['slash']), loc)
